@@ -328,6 +328,16 @@ func VH_C09_services() {
 	err := verifLoadCfg(s, &verifCfgStep{cfg: cfg})
 	verifAssert("C09.load-ok", err == nil)
 	verifCheckState("C09", sm, &cfg, []verifLn{verifL1T, verifL1U, verifL2T, verifL2U}, verifKeys)
+	// every accepted TCP connection was reported opened exactly once
+	opened := 0
+	sm.mu.Lock()
+	for _, ev := range sm.events {
+		if ev.proto == "tcp" {
+			opened++
+		}
+	}
+	sm.mu.Unlock()
+	verifAssert("C15.opened-once-per-connection", opened == 2*len(verifKeys))
 	verifAssert("C09.stop-ok", s.Stop() == nil)
 	verifQuiesce()
 	verifReach("C09.done", true)
@@ -548,6 +558,15 @@ func VH_C11_overlap() {
 	}
 	sm.mu.Unlock()
 	verifAssert("C11.overlap.each-connection-handled-once", n == 2)
+	nu := 0
+	sm.mu.Lock()
+	for _, ev := range sm.events {
+		if ev.proto == "udp" {
+			nu++
+		}
+	}
+	sm.mu.Unlock()
+	verifAssert("C11.overlap.each-datagram-handled-once", nu == 2)
 	verifAssert("C11.overlap.old-stop-ok", s.Stop() == nil)
 	s.stopConfig = stop2
 	verifQuiesce()
